@@ -1,3 +1,383 @@
-/- C04 — property theorems (stub: the property is not claimed yet). -/
+/-
+  C04 — DOM structural invariants hold after any history of mutations.
+
+  Model: AHP/Model/Dom.lean (mutators, worlds, `step`, `run`), AHP/Model/DomView.lean (navigation).
+  Invariant: `Dom.Inv` (AHP/Lemmas/Dom.lean): every root of the world is an element without parent
+  whose tree satisfies `OK` (children mirror the element blocks, each child's parent is the element,
+  text cache = concatenation of the text blocks, self-closing ⇒ no text and no child, one
+  ownerDocument throughout), all uids of the world are pairwise distinct (no element twice, no element
+  under two parents), uids are below the allocation counter.
+
+  `step w op = none` means the call is outside the model: an unknown element, or an element argument of
+  an append/insert call that is not a root of the world or contains the target — exactly the
+  precondition the property states ("an element passed to an append/insert call is currently
+  detached; the library does not re-parent").
+-/
+import AHP.Lemmas.DomNav
 namespace AHP.C04
+open AHP AHP.Dom
+
+/-! ## C04a — each of the 15 calls preserves the invariant -/
+
+/-- C04a. Whatever the call (appendText, appendChild, appendBlock(s), appendInnerHTML, insertBefore,
+    insertAfter, removeText(All), remove, removeChild(ren), removeBlock(s), setAttribute) and whatever
+    its arguments: if the call is inside the model, the resulting world satisfies the invariant. -/
+theorem step_preserves_inv (w : World) (op : Op) (w' : World) (v : Val)
+    (hw : Inv w) (h : step w op = some (w', v)) : Inv w' :=
+  step_Inv' op hw h
+
+/-! ## C04b — all histories; freshly built trees -/
+
+/-- C04b. The invariant holds after every history of calls, of any length. -/
+theorem history_preserves_inv (ops : List Op) (w w' : World) (hw : Inv w) (h : run w ops = some w') : Inv w' := by
+  induction ops generalizing w with
+  | nil => simp only [run, Option.some.injEq] at h; rw [← h]; exact hw
+  | cons op ops ih =>
+    simp only [run] at h
+    split at h
+    · simp at h
+    · rename_i r hr
+      exact ih r.1 (step_preserves_inv w op r.1 r.2 hw (by simpa using hr)) h
+
+def FN.isEl : FN → Bool
+  | .text _ => false
+  | .el _ _ _ _ => true
+
+/-- A tree built the way the constructor / the parser builds it is consistent: parent links, one
+    owner throughout, children and text caches, self-closing only without content. -/
+theorem built_tree_consistent (par own : Option Nat) (f : FN) (n : Nat) : OK par own (mk par own f n).1 :=
+  mk_OK par own f n
+
+/-- A freshly constructed element (`AdvancedTag(name, attrs)`, `createElement`) is a detached root. -/
+theorem fresh_element_detached (name : Str) (attrs : List (Str × Option Str)) (sc : Bool) (n : Nat) :
+    Detached (mk none none (.el name attrs sc []) n).1 := by
+  obtain ⟨m, bs, h, _, _⟩ := mk_isEl none none name attrs sc [] n
+  exact ⟨m, bs, h, mk_OK none none _ n⟩
+
+/-- The initial world of a history — a seed tree (detached, or owned by a parser) and any number of
+    spare detached trees — satisfies the invariant. -/
+theorem initial_world_inv (doc : Bool) (seed : FN) (spares : List FN)
+    (hseed : FN.isEl seed = true) (hsp : ∀ s ∈ spares, FN.isEl s = true) : Inv (initWorld doc seed spares) := by
+  obtain ⟨k1, hi1, hn1⟩ := mk_ids none (if doc then some 0 else none) seed 0
+  obtain ⟨k2, hi2, hn2⟩ := mkL_ids none none spares (mk none (if doc then some 0 else none) seed 0).2
+  rw [hn1] at hi2 hn2
+  have hsp' : ∀ r ∈ (mkL none none spares (mk none (if doc then some 0 else none) seed 0).2).1, r.isEl = true := by
+    generalize (mk none (if doc then some 0 else none) seed 0).2 = n
+    clear hi2 hn2 hn1
+    induction spares generalizing n with
+    | nil => simp
+    | cons s ss ih =>
+      intro r hr
+      rw [mkL_cons] at hr
+      simp only [List.mem_cons] at hr
+      cases hr with
+      | inl hr =>
+        subst hr
+        have := hsp s (by simp)
+        cases s with
+        | text x => simp [FN.isEl] at this
+        | el a b c d => rw [mk_el]; rfl
+      | inr hr => exact ih (fun x hx => hsp x (by simp [hx])) _ r hr
+  refine ⟨?_, ?_, ?_⟩
+  · intro r hr
+    simp only [initWorld, List.mem_cons] at hr
+    cases hr with
+    | inl hr =>
+      subst hr
+      cases seed with
+      | text x => simp [FN.isEl] at hseed
+      | el a b c d =>
+        obtain ⟨m, bs, h, ho, _⟩ := mk_isEl none (if doc then some 0 else none) a b c d 0
+        refine ⟨m, bs, h, ?_⟩
+        rw [ho]; exact mk_OK _ _ _ _
+    | inr hr =>
+      obtain ⟨m, bs, rfl, hk⟩ := mkL_roots none spares _ r hr (hsp' r hr)
+      have : m.owner = none := by simp only [OK_el] at hk; exact hk.2.1
+      exact ⟨m, bs, rfl, this ▸ hk⟩
+  · simp only [initWorld, idsL_cons, hi1, hn1, hi2]
+    rw [List.range'_append_1]
+    exact range'_nodup _ _
+  · intro i hi
+    simp only [initWorld, idsL_cons, hi1, hn1, hi2] at hi ⊢
+    rw [List.range'_append_1] at hi
+    simp only [List.mem_range'_1] at hi
+    rw [hn2]; omega
+
+/-- C04 in one statement: starting from freshly built trees, the invariant holds after every
+    history of calls that stays inside the model (i.e. keeps the property's precondition). -/
+theorem invariant_after_any_history (doc : Bool) (seed : FN) (spares : List FN) (ops : List Op) (w' : World)
+    (hseed : FN.isEl seed = true) (hsp : ∀ s ∈ spares, FN.isEl s = true)
+    (h : run (initWorld doc seed spares) ops = some w') : Inv w' :=
+  history_preserves_inv ops _ w' (initial_world_inv doc seed spares hseed hsp) h
+
+/-! ## What the invariant says about one element (the clauses of the property text) -/
+
+/-- In an invariant world, for every element: `children` is the list of element blocks in order,
+    `text` is the concatenation of the text blocks, a self-closing element has neither child nor text,
+    and every element block points back to the element and shares its ownerDocument. -/
+theorem inv_element (w : World) (hw : Inv w) (m : Meta) (bs : List DN) (he : (m, bs) ∈ elemsL w.roots) :
+    m.children = elemIds bs ∧ m.text = textOf bs ∧ (m.sc = true → elemIds bs = [] ∧ textOf bs = []) ∧
+    (∀ m' k, DN.el m' k ∈ bs → m'.parent = some m.id ∧ m'.owner = m.owner) := by
+  obtain ⟨p, o, hk⟩ := world_elem_OK hw he
+  simp only [OK_el] at hk
+  refine ⟨hk.2.2.1, hk.2.2.2.1, hk.2.2.2.2.1, ?_⟩
+  intro m' k hmem
+  have := OKL_mem hk.2.2.2.2.2 hmem
+  simp only [OK_el] at this
+  exact ⟨this.1, this.2.1.trans hk.2.1.symm⟩
+
+/-- No element appears twice or under two parents: all uids reachable in the world are distinct. -/
+theorem inv_no_element_twice (w : World) (hw : Inv w) : (idsL w.roots).Nodup := hw.nodup
+
+/-- ownerDocument is the same for every element reachable from a root (the owning parser below a
+    parser's root; None below a detached root), and a root has no parent. -/
+theorem inv_owner_uniform (w : World) (hw : Inv w) (m : Meta) (bs : List DN) (hr : DN.el m bs ∈ w.roots) :
+    m.parent = none ∧ ∀ e ∈ elems (.el m bs), e.1.owner = m.owner := by
+  obtain ⟨m', bs', he, hk⟩ := hw.roots _ hr
+  cases he
+  refine ⟨by simp only [OK_el] at hk; exact hk.1, fun e h => elems_owner _ hk h⟩
+
+/-- ownerDocument is None throughout a removed subtree: after a successful `removeChild`, the removed
+    element is a root of the world, without parent, with ownerDocument None on every element below. -/
+theorem removed_subtree_detached (w w' : World) (t c : Nat) (hw : Inv w)
+    (h : w.removeChild t c = some (w', .el c)) :
+    ∃ r ∈ w'.roots, rootId r = some c ∧ Detached r := by
+  unfold World.removeChild World.apply at h
+  split at h
+  · simp at h
+  · rename_i m bs hf
+    obtain ⟨p, o, hk⟩ := findL?_roots_OK t w.roots hw.roots hf
+    have hv : (locRemoveChild c m bs).2 = .el c := by
+      split at h <;> (simp only [Option.some.injEq, Prod.mk.injEq] at h; exact h.2)
+    obtain ⟨r, hr, he⟩ := locRemoveChild_el c m bs hv
+    rw [he] at h
+    simp only [Option.some.injEq, Prod.mk.injEq] at h
+    obtain ⟨h1, h2, _, _, _, h6⟩ := removeFirstEl_spec c bs hr
+    refine ⟨reown none (setParent none r.1), ?_, ?_, ?_⟩
+    · rw [← h.1]
+      simp only [World.edit, List.mem_append]
+      right
+      refine updL_out_mem t _ w.roots hf _ ?_
+      rw [he]; simp
+    · cases hr1 : r.1 with
+      | text s => rw [hr1] at h1; simp [DN.isEl] at h1
+      | el m' k' => rw [hr1] at h2; simpa [rootId, DN.rid] using h2
+    · simp only [OK_el] at hk
+      exact detach_Detached _ h1 (h6 _ _ hk.2.2.2.2.2).1
+
+/-! ## C04c — navigation agrees with the lists -/
+
+/-- firstElementChild, lastElementChild, childElementCount, hasChild, hasChildNodes — which the code
+    computes from the cached `children` — are what the element blocks say. -/
+theorem nav_children (w : World) (hw : Inv w) (m : Meta) (bs : List DN) (he : (m, bs) ∈ elemsL w.roots) :
+    firstElementChild m = optEl (elemIds bs).head? ∧ lastElementChild m = optEl (elemIds bs).getLast? ∧
+    childElementCount m = (elemIds bs).length ∧ (∀ c, hasChild m c = (elemIds bs).contains c) ∧
+    hasChildNodes m = !(elemIds bs).isEmpty := by
+  have := (inv_element w hw m bs he).1
+  simp [firstElementChild, lastElementChild, childElementCount, hasChild, hasChildNodes, this]
+
+/-- the blocks after the leading empty indent block -/
+def body : List DN → List DN
+  | b :: bs => if isEmptyText b then bs else b :: bs
+  | [] => []
+
+/-- firstChild / lastChild are the first / last block once the leading empty indent block is skipped
+    (None when there is none). -/
+theorem nav_first_last (b : DN) (bs : List DN) :
+    firstChild (b :: bs) = ((body (b :: bs)).head?.map dnVal).getD Val.none ∧
+    lastChild (b :: bs) = ((body (b :: bs)).getLast?.map dnVal).getD Val.none := by
+  constructor
+  · simp only [firstChild, firstIdx, body]
+    split
+    · cases bs with
+      | nil => simp
+      | cons c cs => simp
+    · simp
+  · simp only [lastChild, firstIdx, body]
+    split
+    · cases bs with
+      | nil => simp
+      | cons c cs =>
+        simp only [List.length_cons, List.getLast?_cons_cons]
+        rw [if_neg (by omega)]
+        cases (c :: cs).getLast? <;> rfl
+    · simp only [List.length_cons]
+      rw [if_neg (by omega)]
+      cases (b :: bs).getLast? <;> rfl
+
+/-- getAllChildNodes lists every element below in document order; contains/containsUid hold exactly
+    for the element itself and the elements below. -/
+theorem nav_descendants (m : Meta) (bs : List DN) :
+    descL bs = idsL bs ∧ ∀ x, containsUid m bs x = (ids (.el m bs)).contains x := by
+  refine ⟨descL_eq_idsL bs, ?_⟩
+  intro x
+  simp only [containsUid, descL_eq_idsL, ids_el, List.contains_cons]
+  rw [Bool.beq_comm]
+
+/-- A root has no siblings and no peers. -/
+theorem nav_root (w : World) (m : Meta) (hp : m.parent = none) :
+    nextSibling w m = .none ∧ previousSibling w m = .none ∧ nextElementSibling w m = .none ∧
+    previousElementSibling w m = .none ∧ getPeers w m = .none := by
+  simp [nextSibling, previousSibling, nextElementSibling, previousElementSibling, getPeers, hp]
+
+/-- nextSibling / previousSibling / getPeers of an element that is block `i` of an element `(pm, pbs)`
+    of an invariant world — computed through the cached `parentNode` and an `index` lookup — are the
+    neighbouring blocks of that list, and the other element blocks of that list. -/
+theorem nav_siblings (w : World) (hw : Inv w) (pm : Meta) (pbs : List DN) (hp : (pm, pbs) ∈ elemsL w.roots)
+    (i : Nat) (m : Meta) (k : List DN) (hi : pbs[i]? = some (.el m k)) :
+    nextSibling w m = (match pbs[i + 1]? with | some b => dnVal b | none => Val.none) ∧
+    previousSibling w m = (if i = 0 then Val.none else match pbs[i - 1]? with | some b => dnVal b | none => Val.none) ∧
+    getPeers w m = .list (((elemIds pbs).filter (· ≠ m.id)).map .el) := by
+  obtain ⟨p, o, hk⟩ := world_elem_OK hw hp
+  simp only [OK_el] at hk
+  have hmem : DN.el m k ∈ pbs := List.mem_of_getElem? hi
+  have hmk := OKL_mem hk.2.2.2.2.2 hmem
+  simp only [OK_el] at hmk
+  have hpar : m.parent = some pm.id := hmk.1
+  have hfind : w.find? pm.id = some (pm, pbs) := findL?_unique w.roots hw.nodup hp
+  have hidx : indexOf (.elm m.id) pbs = some i :=
+    indexOf_elm pbs (elemIds_nodup pbs (elemsL_nodup w.roots hw.nodup hp)) i hi
+  have hlt : i < pbs.length := by
+    rcases Nat.lt_or_ge i pbs.length with h | h
+    · exact h
+    · rw [List.getElem?_eq_none h] at hi; simp at hi
+  refine ⟨?_, ?_, ?_⟩
+  · simp only [nextSibling, hpar, hfind, hidx]
+    by_cases hl : i = pbs.length - 1
+    · rw [if_pos hl, List.getElem?_eq_none (by omega)]
+    · rw [if_neg hl]
+      have : i + 1 < pbs.length := by omega
+      rw [List.getElem?_eq_getElem this]
+  · simp only [previousSibling, hpar, hfind, hidx]
+    by_cases h0 : i = 0
+    · simp [h0]
+    · rw [if_neg h0, if_neg h0]
+      have : i - 1 < pbs.length := by omega
+      rw [List.getElem?_eq_getElem this]
+  · simp only [getPeers, hpar, hfind, hk.2.2.1]
+
+theorem natIndex_of_getElem (l : List Nat) (hn : l.Nodup) (j : Nat) {x} (h : l[j]? = some x) : natIndex x l = some j := by
+  induction l generalizing j with
+  | nil => simp at h
+  | cons y ys ih =>
+    cases j with
+    | zero => simp only [List.getElem?_cons_zero, Option.some.injEq] at h; simp [natIndex, h]
+    | succ j =>
+      simp only [List.getElem?_cons_succ] at h
+      simp only [List.nodup_cons] at hn
+      have hne : y ≠ x := fun e => hn.1 (e ▸ List.mem_of_getElem? h)
+      simp [natIndex, hne, ih hn.2 j h]
+
+/-- nextElementSibling / previousElementSibling of the `j`-th element block of an element of an
+    invariant world — computed through the cached `parentNode` and `children.index` — are the
+    neighbouring element blocks. -/
+theorem nav_element_siblings (w : World) (hw : Inv w) (pm : Meta) (pbs : List DN) (hp : (pm, pbs) ∈ elemsL w.roots)
+    (m : Meta) (k : List DN) (hmem : DN.el m k ∈ pbs) (j : Nat) (hj : (elemIds pbs)[j]? = some m.id) :
+    nextElementSibling w m = optEl (elemIds pbs)[j + 1]? ∧
+    previousElementSibling w m = (if j = 0 then Val.none else optEl (elemIds pbs)[j - 1]?) := by
+  obtain ⟨p, o, hk⟩ := world_elem_OK hw hp
+  simp only [OK_el] at hk
+  have hmk := OKL_mem hk.2.2.2.2.2 hmem
+  simp only [OK_el] at hmk
+  have hpar : m.parent = some pm.id := hmk.1
+  have hfind : w.find? pm.id = some (pm, pbs) := findL?_unique w.roots hw.nodup hp
+  have hnd : (elemIds pbs).Nodup := elemIds_nodup pbs (elemsL_nodup w.roots hw.nodup hp)
+  have hidx : natIndex m.id (elemIds pbs) = some j := natIndex_of_getElem _ hnd j hj
+  have hlt : j < (elemIds pbs).length := by
+    rcases Nat.lt_or_ge j (elemIds pbs).length with h | h
+    · exact h
+    · rw [List.getElem?_eq_none h] at hj; simp at hj
+  constructor
+  · simp only [nextElementSibling, hpar, hfind, hidx, hk.2.2.1]
+    by_cases hl : j = (elemIds pbs).length - 1
+    · rw [if_pos hl, List.getElem?_eq_none (by omega)]; rfl
+    · rw [if_neg hl]
+      have : j + 1 < (elemIds pbs).length := by omega
+      rw [List.getElem?_eq_getElem this]; rfl
+  · simp only [previousElementSibling, hpar, hfind, hidx, hk.2.2.1]
+    by_cases h0 : j = 0
+    · simp [h0]
+    · rw [if_neg h0, if_neg h0]
+      have : j - 1 < (elemIds pbs).length := by omega
+      rw [List.getElem?_eq_getElem this]; rfl
+
+/-! ## The model is defined on the domain of the property
+
+  `step` answers `none` only outside the stated precondition: every single-target call is defined as
+  soon as the target is an element of the world; the element-moving calls as soon as, in addition, the
+  element handed in is a root of the world (currently detached) and the target lies outside it. -/
+
+theorem apply_defined (w : World) (t : Nat) (loc : Meta → List DN → Option Edit × Val) (h : (w.find? t).isSome = true) :
+    (w.apply t loc).isSome = true := by
+  unfold World.apply
+  cases hf : w.find? t with
+  | none => rw [hf] at h; simp at h
+  | some r =>
+    obtain ⟨m, bs⟩ := r
+    simp only
+    cases (loc m bs).1 <;> simp
+
+/-- appendText, removeText, removeTextAll, removeChild, removeBlock, insertBefore/After of a text
+    block and setAttribute of a plain name are defined for every element of the world and all arguments. -/
+theorem single_target_calls_defined (w : World) (t : Nat) (h : (w.find? t).isSome = true) (s k v : Str) (c : Nat) (b : Blk)
+    (r : Option Blk) (hk : specialAttr k = false) :
+    (step w (.appendText t s)).isSome ∧ (step w (.removeText t s)).isSome ∧ (step w (.removeTextAll t s)).isSome ∧
+    (step w (.removeChild t c)).isSome ∧ (step w (.removeBlock t b)).isSome ∧
+    (step w (.insertBefore t (.txt s) r)).isSome ∧ (step w (.insertAfter t (.txt s) r)).isSome ∧
+    (step w (.setAttribute t k v)).isSome ∧ (step w (.appendChild t none)).isSome := by
+  have ha := fun loc => apply_defined w t loc h
+  refine ⟨?_, ?_, ?_, ?_, ?_, ?_, ?_, ?_, ?_⟩
+  · simp only [step, World.appendText]; exact ha _
+  · simp only [step, World.removeText]; exact ha _
+  · simp only [step, World.removeTextAll]; exact ha _
+  · simp only [step, World.removeChild]; exact ha _
+  · cases b with
+    | elm c => simp only [step, World.removeBlock, World.removeChild]; exact ha _
+    | txt s => simp only [step, World.removeBlock, World.removeText]; exact ha _
+  · cases r with
+    | none => simp only [step, World.insert, World.appendBlock, World.appendText, Option.isSome_map]; exact ha _
+    | some r => simp only [step, World.insert]; exact ha _
+  · cases r with
+    | none => simp only [step, World.insert, World.appendBlock, World.appendText, Option.isSome_map]; exact ha _
+    | some r => simp only [step, World.insert]; exact ha _
+  · simp only [step, World.setAttribute, hk]; exact ha _
+  · simp only [step, Option.isSome_map]; exact h
+
+/-- appendChild / appendBlock / insertBefore / insertAfter of an element are defined whenever the
+    element is a root of the world (detached) and the target is an element outside it. -/
+theorem moving_calls_defined (w : World) (t c : Nat) (ct : DN) (rest : List DN) (r : Option Blk)
+    (hc : takeRoot c w.roots = some (ct, rest)) (ht : (findL? t rest).isSome = true) :
+    (step w (.appendChild t (some c))).isSome ∧ (step w (.appendBlock t (.elm c))).isSome ∧
+    (step w (.insertBefore t (.elm c) r)).isSome ∧ (step w (.insertAfter t (.elm c) r)).isSome := by
+  have h1 : (w.appendChild t c).isSome = true := by
+    simp only [World.appendChild, hc]
+    exact apply_defined { w with roots := rest } t _ ht
+  have h2 : ∀ after, (w.insert after t (.elm c) r).isSome = true := by
+    intro after
+    cases r with
+    | none => exact h1
+    | some r =>
+      simp only [World.insert, hc]
+      cases hf : findL? t rest with
+      | none => rw [hf] at ht; simp at ht
+      | some x =>
+        obtain ⟨m, bs⟩ := x
+        simp only
+        cases indexOf r bs <;> simp
+  exact ⟨h1, h1, h2 false, h2 true⟩
+
+/-! ## Non-vacuity: a concrete history inside the model, starting from built trees -/
+
+def exSeed : FN := .el "div".toList [] false [.text "a".toList, .el "b".toList [] false [.text "x".toList], .el "br".toList [] false []]
+def exSpares : List FN := [.el "span".toList [] false [], .el "p".toList [] true []]
+def exOps : List Op :=
+  [.insertBefore 0 (.elm 3) (some (.txt "a".toList)), .appendText 4 "t".toList, .removeChild 0 1, .appendChild 3 (some 1),
+   .insertAfter 0 (.txt "z".toList) (some (.elm 2)), .remove 1]
+
+example : (run (initWorld true exSeed exSpares) exOps).isSome = true := by decide
+example : ∃ w', run (initWorld true exSeed exSpares) exOps = some w' ∧ Inv w' := by
+  cases h : run (initWorld true exSeed exSpares) exOps with
+  | none => exact absurd h (by decide)
+  | some w' => exact ⟨w', rfl, invariant_after_any_history true exSeed exSpares exOps w' rfl (by decide) h⟩
+
 end AHP.C04
